@@ -20,10 +20,12 @@ FFT_Processor_fftw::FFT_Processor_fftw(const int32_t N): _2N(2*N),N(N),Ns2(N/2) 
     }
 }
 
+//the fftw planner (creation and destruction of plans) is not thread safe
+static std::mutex fftw_planner_mutex;
+
 void FFT_Processor_fftw::plan_fftw() {
     //ensure fftw plan thread safety
-    static std::mutex mutex;
-    std::lock_guard<std::mutex> lock(mutex);
+    std::lock_guard<std::mutex> lock(fftw_planner_mutex);
     rev_p = fftw_plan_dft_r2c_1d(_2N, rev_in, rev_out, FFTW_ESTIMATE);
     p = fftw_plan_dft_c2r_1d(_2N, in, out, FFTW_ESTIMATE);
 }
@@ -59,8 +61,12 @@ void FFT_Processor_fftw::execute_direct_Torus32(Torus32* res, const cplx* a) {
 }
 
 FFT_Processor_fftw::~FFT_Processor_fftw() {
-    fftw_destroy_plan(p);
-    fftw_destroy_plan(rev_p);
+    {
+        //a thread may exit while another one is planning
+        std::lock_guard<std::mutex> lock(fftw_planner_mutex);
+        fftw_destroy_plan(p);
+        fftw_destroy_plan(rev_p);
+    }
     fftw_free(in); fftw_free(rev_out);	
     free(rev_in); free(out);
     delete[] omegaxminus1;
